@@ -412,14 +412,14 @@ func TestCheck(t *testing.T) {
 	r.Set("exhaustive", true)
 	r.Count("enum_strings_this_shard", total)
 	// (2) generated name lists: round trip
-	n := r.Pick(60000, 2000000)
+	n := r.Pick(60000, 6000000)
 	for i := 0; i < n; i++ {
 		if r.Mine(i) {
 			judgeNames(r, i)
 		}
 	}
 	// (3) mutated encodings <= 512 bytes
-	m := r.Pick(80000, 3000000)
+	m := r.Pick(80000, 10000000)
 	for i := 0; i < m; i++ {
 		if !r.Mine(i) {
 			continue
@@ -428,7 +428,7 @@ func TestCheck(t *testing.T) {
 		judgeBytes(r, "mut", mutate(rng, reflabel.Encode(genNames(rng))))
 	}
 	// (4) single edits of parsed sets
-	e := r.Pick(40000, 1000000)
+	e := r.Pick(40000, 5000000)
 	for i := 0; i < e; i++ {
 		if r.Mine(i) {
 			judgeEdit(r, i)
